@@ -23,7 +23,7 @@ RULE = (
 ASSUMPTIONS = [
     "freshness is decided as 'the registered RNG / key generator is consulted once per file / per ECC block and its output is what is used'; entropy of os.urandom is out of scope",
 ]
-REQUIRED_CLASSES = ["agree.blocks>=2", "agree.keyless", "agree.ecc", "splice.body=K1", "splice.body=K2", "splice.ecc", "splice.same-tag", "passthrough.unopened>=1", "passthrough.unopened-ends00", "rekey.enc-component", "history.writes>=2", "history.keyless>=2"]
+REQUIRED_CLASSES = ["agree.blocks>=2", "agree.keyless", "agree.ecc", "splice.body=K1", "splice.body=K2", "splice.ecc", "splice.same-tag", "splice.unopened-between", "passthrough.unopened>=1", "passthrough.unopened-ends00", "rekey.enc-component", "history.writes>=2", "history.keyless>=2"]
 
 B2 = sut.B2
 
@@ -131,7 +131,9 @@ def check_splice(case, rec):
     hb = [_wrap(blocks[0], k1, case["eph"])] + [_wrap(b, k2, case["eph"] + 1) for b in blocks[1:]]
     comps = [dict(desc=[(0xC3, b"\x02")], blob=case["blob"], actual_len=len(case["blob"]), enc=False)]
     binary = M.bec2_binary(hb, comps, body_key)
-    decs = [sut.mk_encryptor(b) for b in blocks]
+    decs = [sut.mk_encryptor(b) for b in blocks if not b.get("unopened")]
+    if any(b.get("unopened") for b in blocks):
+        rec.cls("splice.unopened-between")
     if case.get("reverse_decryptors"):
         decs.reverse()
     try:
@@ -334,7 +336,15 @@ def strat_agree(tier):
 @st.composite
 def strat_splice(draw, tier="quick"):
     blocks = draw(S.auth_blocks(min_size=2, allow_default_ecc=False))
-    if draw(st.integers(0, 2)) == 0:
+    variant = draw(st.integers(0, 3))
+    if variant == 3:
+        # an UNOPENABLE block (ECC block for which no decryptor is supplied) BETWEEN two opened blocks that wrap different keys
+        cust = dict(kind="cust", crypto_key=draw(st.binary(min_size=16, max_size=16)), customer_key=None)
+        upd = dict(kind="upd", code=draw(st.binary(min_size=8, max_size=8)), version=draw(st.integers(0, 255)))
+        mid = dict(kind="ecc", sel=draw(st.integers(0, 3)), priv=draw(S.ecc_priv()), unopened=True)
+        first, last = (cust, upd) if draw(st.booleans()) else (upd, cust)
+        blocks = [first, mid, last]
+    elif variant == 0:
         # two openable blocks of the SAME tag (ECC blocks for different key selectors) wrapping different keys, optionally with others around them
         s1 = draw(st.integers(0, 3))
         two = [dict(kind="ecc", sel=s1, priv=draw(S.ecc_priv())), dict(kind="ecc", sel=(s1 + draw(st.integers(1, 3))) % 4, priv=draw(S.ecc_priv()))]
